@@ -821,6 +821,7 @@ MAX_REPORTED = 6
 
 def run(ctx):
     ctx.prove(["Props/C09.vo", "Run/eval_C09.vo"])
+    import extractlib; extractlib.tables_tie(ctx, ['mainfile', 'initFile', 'MagefilesDirName'])   # literal data of the source re-proved equal to the models' (DESIGN 3.5)
     real_violation = ctx.violation
     suppressed = [0]
 
